@@ -373,7 +373,7 @@ def run_case(case, R):
                            {"k": "one", "s": list(shape), "v": var, "label": "index " + idx_label(idx)})
             R.sample({"input_shape": shape, "variant": var, "example_index": idx_label((slice(None, None, -1),))})
     elif k == "twins":
-        seq = [sp for sp in space.twin_sequence() if tuple(sp["s"]) == (2,)]
+        seq = [sp for sp in space.twin_sequence() if tuple(sp["s"]) == (2,)] + [sp for _, sp in space.wide_array_specs()]
         for i, sp in enumerate(seq):
             p, m = build_checked(sp), model_of(sp)
             R.state(("twins", i))
